@@ -56,6 +56,15 @@ func ApplyInclude(ctx context.Context, workingDir string, environment types.Mapp
 		return err
 	}
 
+	// workingDir is relative to the parent project directory when this model is itself an included one:
+	// files on disk are looked up from the actual directory, the one the local resource loader is bound to
+	localDir := workingDir
+	for _, loader := range options.ResourceLoaders {
+		if local, ok := loader.(localResourceLoader); ok {
+			localDir = local.WorkingDir
+		}
+	}
+
 	for _, r := range includeConfig {
 		for _, listener := range options.Listeners {
 			listener("include", map[string]any{
@@ -84,7 +93,7 @@ func ApplyInclude(ctx context.Context, workingDir string, environment types.Mapp
 						r.ProjectDirectory = filepath.Dir(path)
 					case !filepath.IsAbs(r.ProjectDirectory):
 						relworkingdir = loader.Dir(r.ProjectDirectory)
-						r.ProjectDirectory = filepath.Join(workingDir, r.ProjectDirectory)
+						r.ProjectDirectory = filepath.Join(localDir, r.ProjectDirectory)
 
 					default:
 						relworkingdir = r.ProjectDirectory
@@ -118,7 +127,7 @@ func ApplyInclude(ctx context.Context, workingDir string, environment types.Mapp
 			envFile := []string{}
 			for _, f := range r.EnvFile {
 				if !filepath.IsAbs(f) {
-					f = filepath.Join(workingDir, f)
+					f = filepath.Join(localDir, f)
 					s, err := os.Stat(f)
 					if err != nil {
 						return err
